@@ -171,11 +171,23 @@ def run(tier, seed):
     vlib.require_mc_ok(r, "QBFTMC")
     o.add_mc("QBFTMC_H3s" if not thorough else "QBFTMC_H3r1", r)
     # design check of the timed model (QBFTTimed): configurations that hold, and (thorough) the control that must not
-    timed = ["QBFTTimedMC_e4lat1.cfg", "QBFTTimedMC_e4nocrash.cfg"] + (["QBFTTimedMC_i4.cfg"] if thorough else [])
+    # (policy x n x latency set x start offsets x f crashes; DecidedInTime = everybody has decided by MaxTime)
+    timed = ["QBFTTimedMC_e4lat1.cfg", "QBFTTimedMC_e4nocrash.cfg", "QBFTTimedMC_i4late.cfg", "QBFTTimedMC_e4late.cfg",
+             "QBFTTimedMC_e4lateldr.cfg", "QBFTTimedMC_i5.cfg"]
+    if thorough:
+        timed += ["QBFTTimedMC_i4.cfg", "QBFTTimedMC_i4late01.cfg", "QBFTTimedMC_i5lat01.cfg", "QBFTTimedMC_e5lateldr.cfg",
+                  "QBFTTimedMC_i6.cfg", "QBFTTimedMC_i6late.cfg", "QBFTTimedMC_e5nocrash01.cfg"]
     for cfg in timed:
         r = vlib.tlc(pid, qc.FAMILY, "QBFTTimedMC", cfg, timeout=1500)
         vlib.require_mc_ok(r, cfg)
         o.add_mc(cfg, r)
+    if thorough:
+        # control / known finding at n=5: the increasing timer with a late round-1 leader and one silent member runs away
+        r = vlib.tlc(pid, qc.FAMILY, "QBFTTimedMC", "QBFTTimedMC_i5lateprobe.cfg", timeout=1500)
+        if not r.violation:
+            raise vlib.Infra("QBFTTimedMC_i5lateprobe no longer violates NoRunaway: " + r.summary())
+        o.selftests.append({"control": "QBFTTimedMC_i5lateprobe (inc timer, n=5, late round-1 leader, one silent member) violates NoRunaway (finding C04-inc-timer-late-leader-desync at n=5)",
+                            "rejected_as_required": True})
     timed_probe(o, regenerate=thorough)
     en = enumerate_n4(seed, thorough)
     if not thorough:
